@@ -77,6 +77,23 @@ def skewed_db():
     return db
 
 
+def refused_reregistrations(db, symbols):
+    """Try to register symbols the database already has once more, with other formulas.  The library refuses (a unit
+    symbol belongs to one quantity type, once); a refused call changes nothing, so everything checked afterwards is
+    checked against the table as shipped.  Returns the symbols for which the call was *not* refused."""
+    accepted = []
+    for sym in symbols:
+        info = db.unit_to_unit_info.get(sym)
+        if info is None:
+            continue
+        try:
+            db.AddUnit(info.quantity_type, "registered again", sym, "%f * 0.3", "%f / 0.3")
+        except Exception:
+            continue
+        accepted.append(sym)
+    return accepted
+
+
 def clear_caches(db):
     """Empty the database's memo tables so that a reused database starts cold.  The tables are implementation
     details (one of them private): when the tree under test names them differently, answer False and let the
